@@ -80,4 +80,10 @@ V64(x) == BE(x, 8)
 Nat16(v) == v[7] * 256 + v[8]
 
 SubBytes(m, lo, n) == Mat([i \in 1..n |-> m[lo + i]])      \* bytes lo+1 .. lo+n
+\* minimal perturbations of an image (used to derive near-valid prior contents from an operation's own result)
+FlipBit(m, p) ==                           \* bit p (0 = msb of byte 1) of m inverted
+  LET i == (p \div 8) + 1  k == P2[8 - (p % 8)] IN
+  [m EXCEPT ![i] = IF (@ \div k) % 2 = 1 THEN @ - k ELSE @ + k]
+RevQuad(m, q) ==                           \* quadlet q (0-based) byte-reversed
+  [m EXCEPT ![4*q + 1] = m[4*q + 4], ![4*q + 2] = m[4*q + 3], ![4*q + 3] = m[4*q + 2], ![4*q + 4] = m[4*q + 1]]
 =============================================================================
